@@ -847,6 +847,17 @@ pub fn run_scenario(
                 // clean shutdown and start from the block files (C12)
                 let pre = r.state(&r.node);
                 let files = r.node.io.files();
+                // the highest block the disk holds when the node goes down
+                let disk_top = r
+                    .blocks
+                    .values()
+                    .filter(|b| {
+                        let suffix = format!("-{}.sai", hex::encode(b.block.hash));
+                        files.keys().any(|k| k.ends_with(&suffix))
+                    })
+                    .map(|b| b.block.id)
+                    .max()
+                    .unwrap_or(0);
                 wd.pet(&format!("scn {} step {} restart", scn_no, r.step_no));
                 let (res, booted) = r.boot(files);
                 wd.pause();
@@ -866,7 +877,7 @@ pub fn run_scenario(
                     per_id.values().filter(|n| **n > 1).count()
                 };
                 trace.emit(json!({"ev": "Restart", "scn": scn_no, "i": r.step_no, "res": res, "pre": pre, "st": r.state(&r.node), "tag": st.tag,
-                    "competing": competing}));
+                    "competing": competing, "disk_top": disk_top}));
                 if res != "ok" {
                     break;
                 }
